@@ -1054,7 +1054,12 @@ def run_zoo_entry(entry, reps):
 
 
 def zoo_stream(ctx, reps):
-    entries = zoo(ctx)
+    try:
+        entries = zoo(ctx)
+    except Exception as e:  # noqa  (a constructor of the real code raised while the zoo was built)
+        ctx.violation('zoo construction', 'building the operator zoo raised {}: {}'.format(
+            type(e).__name__, str(e)[:300]), {'kind': 'zoo-build'})
+        return
     covered = set()
     for entry in entries:
         name, classes = entry[0], entry[1]
